@@ -162,6 +162,11 @@ theorem step_views (w : World) (op : Op) : ViewsStep w op (step w op).1 := by
       simp only [stepView, doClose, fail, done]
       repeat' split
       all_goals first | exact .same rfl | exact .upd v { v with closed := true } hv rfl rfl (fun _ => rfl) rfl
+    | exitBlock i r =>
+      simp only [stepView, doClose, fail, done]
+      repeat' split
+      all_goals first | exact .same rfl | exact .upd v { v with closed := true } hv rfl rfl (fun _ => rfl) rfl
+    | enter i => exact .same rfl
     | free i =>
       simp only [stepView, doFree, fail]
       repeat' split
@@ -222,6 +227,11 @@ theorem step_xy (w : World) (op : Op) : (step w op).1.x = w.x ∧ (step w op).1.
       simp only [stepView, doClose, fail, done]
       repeat' split
       all_goals exact ⟨rfl, rfl⟩
+    | exitBlock i r =>
+      simp only [stepView, doClose, fail, done]
+      repeat' split
+      all_goals exact ⟨rfl, rfl⟩
+    | enter i => exact ⟨rfl, rfl⟩
     | free i =>
       simp only [stepView, doFree, fail]
       repeat' split
@@ -256,6 +266,11 @@ theorem step_freed (w : World) (op : Op) (h : w.freed = true) : (step w op).1.fr
       simp only [stepView, doClose, fail, done, hd]
       repeat' split
       all_goals exact h
+    | exitBlock i r =>
+      simp only [stepView, doClose, fail, done, hd]
+      repeat' split
+      all_goals exact h
+    | enter i => exact h
     | free i =>
       simp only [stepView, doFree, fail, h]
       repeat' split
@@ -566,6 +581,10 @@ theorem step_freed_noaccess (w : World) (op : Op) (h : w.freed = true) : (step w
       simp only [stepView, doClose, fail, done, hd]
       repeat' split
       all_goals first | rfl | simp_all
+    | exitBlock i r =>
+      simp only [stepView, doClose, fail, done, hd]
+      repeat' split
+      all_goals first | rfl | simp_all
     | free i =>
       simp only [stepView, doFree, fail, h]
       repeat' split
@@ -629,6 +648,11 @@ theorem step_confined_lem (w : World) (op : Op) (a : Access) (h : (step w op).2.
       simp only [stepView, doClose, fail, done] at h
       repeat' split at h
       all_goals simp at h
+    | exitBlock i r =>
+      simp only [stepView, doClose, fail, done] at h
+      repeat' split at h
+      all_goals simp at h
+    | enter i => simp [stepView, done] at h
     | index i => simp only [stepView, fail] at h; split at h <;> simp at h
     | len i => simp [stepView, done] at h
     | tell i => simp only [stepView, fail, done] at h; split at h <;> simp at h
